@@ -22,7 +22,7 @@ import drive_fs
 
 LV = 'repaired'
 RV = os.environ.get('VERIF_MODEL_VARIANT', 'repaired')
-THEOREMS = ['RB.Rewrite.c14_rerun_filters_exactly', 'RB.Rewrite.c14_rewrite_atomic',
+THEOREMS = ['RB.Rewrite.c14_rerun_filters_exactly', 'RB.Rewrite.c14_rewrite_atomic', 'RB.Rewrite.c14_rewrite_atomic_multi',
             'RB.Rewrite.c14_rerun_regenerates', 'RB.Rewrite.c14_clean_empties']
 
 
@@ -33,8 +33,14 @@ def gen_params(rng, idx, tier):
         {'t': ['B', 'C', 'D'], 'u': ['X', 'Y'], 'u_file': None, 'invocations': 2, 'iterations': 2, 'crits': 0,
          'profile': False},
         {'t': ['B', 'C'], 'u': None, 'u_file': None, 'invocations': 2, 'iterations': 1, 'crits': 0, 'profile': True},
-        {'t': ['B', 'C'], 'u': ['X'], 'u_file': 'u.data', 'invocations': 1, 'iterations': 2, 'crits': 1,
-         'profile': False},
+        # three experiments, three data files: one -r rewrites up to three files one after the other
+        {'t': ['B', 'C'], 'u': ['X'], 'u_file': 'u.data', 'v': ['P', 'Q'], 'v_file': 'v.data', 'invocations': 1,
+         'iterations': 2, 'crits': 1, 'profile': False},
+        # damaged data lines inside the files that are rewritten (dropped by the filter)
+        {'t': ['B', 'C', 'D'], 'u': ['X'], 'u_file': None, 'invocations': 2, 'iterations': 2, 'crits': 1,
+         'profile': False, 'damaged': [6, 11]},
+        {'t': ['B', 'C'], 'u': None, 'u_file': None, 'invocations': 2, 'iterations': 1, 'crits': 0, 'profile': True,
+         'damaged': [3, 5]},
         # larger than the I/O buffer (8192 bytes) after filtering as well
         {'t': ['B', 'C', 'D'], 'u': ['X', 'Y', 'Z'], 'u_file': None, 'invocations': 4, 'iterations': 4, 'crits': 2,
          'profile': False},
@@ -49,11 +55,15 @@ def gen_params(rng, idx, tier):
     profile = rng.random() < 0.25
     if profile and nt < 2:
         nt = 2
-    return {'t': rng.sample(['B', 'C', 'D', 'F', 'G'], nt),
+    nv = rng.choice([0, 0, 1, 2]) if (nu and not profile) else 0
+    return {'v': rng.sample(['P', 'Q', 'R'], nv) if nv else None,
+            'v_file': rng.choice([None, 'v.data']) if nv else None,
+            't': rng.sample(['B', 'C', 'D', 'F', 'G'], nt),
             'u': None if (nu == 0 or profile) else rng.sample(['X', 'Y', 'Z'], nu),
             'u_file': rng.choice([None, 'u.data']) if nu and not profile else None,
             'invocations': rng.randint(1, 3), 'iterations': 1 if profile else rng.randint(1, 3),
-            'crits': 0 if profile else rng.randint(0, 2), 'profile': profile}
+            'crits': 0 if profile else rng.randint(0, 2), 'profile': profile,
+            'damaged': [rng.randint(1, 5), rng.randint(0, 10 ** 6)] if rng.random() < 0.35 else None}
 
 
 def run_keys(params):
@@ -61,6 +71,8 @@ def run_keys(params):
     ks = [('T', 'S', 'E', b) for b in params['t']]
     if params['u']:
         ks += [('U', 'S2', 'E2', b) for b in params['u']]
+    if params.get('v'):
+        ks += [('V', 'S3', 'E3', b) for b in params['v']]
     return ks
 
 
@@ -71,14 +83,18 @@ def gen_selections(rng, params, n):
     sels.append((None, ['s:S:' + t[0]]))
     if len(t) > 1:
         sels.append(('T', ['s:S:' + t[-1], 's:S:' + t[0]]))
+    v = params.get('v') or []
     if u:
-        sels += [('U', []), ('all', ['e:E2']), ('all', ['s:S:' + t[0], 's:S2:' + u[-1]]), ('all', ['e:E', 's:S2'])]
+        sels += [('U', []), ('all', ['e:E2']), ('all', ['s:S:' + t[0], 's:S2:' + u[-1]] + (['s:S3:' + v[0]] if v else [])),
+                 ('all', ['e:E', 's:S2'])]
+        if v:
+            sels += [('V', ['s:S3:' + v[-1]]), ('all', ['e:E3', 'e:E'])]
     else:
         sels += [('all', ['e:E']), (None, ['s:S'])]
     sels.append((None, ['s:S:nosuch']))
     extra = []
     for _ in range(max(0, n - len(sels))):
-        exp = rng.choice([None, 'T', 'all'] + (['U'] if u else []))
+        exp = rng.choice([None, 'T', 'all'] + (['U'] if u else []) + (['V'] if v else []))
         fs = []
         for b in t:
             if rng.random() < 0.3:
@@ -86,15 +102,18 @@ def gen_selections(rng, params, n):
         for b in u:
             if rng.random() < 0.3:
                 fs.append('s:S2:' + b)
+        for b in v:
+            if rng.random() < 0.3:
+                fs.append('s:S3:' + b)
         if rng.random() < 0.2:
-            fs.append(rng.choice(['e:E', 'e:E2'] if u else ['e:E']))
+            fs.append(rng.choice((['e:E', 'e:E2'] if u else ['e:E']) + (['e:E3'] if v else [])))
         extra.append((exp, fs))
     return (sels + extra)[:max(n, 4)] if n < len(sels) else sels + extra
 
 
 def select(params, exp, filters):
     """independent statement of which runs a session is about (keys)"""
-    exps = {'T', 'U'} if exp == 'all' else {exp or 'T'}
+    exps = {'T', 'U', 'V'} if exp == 'all' else {exp or 'T'}
     e_f = [f.split(':')[1] for f in filters if f.startswith('e:')]
     s_f = [f.split(':')[1:] for f in filters if f.startswith('s:')]
     out = []
@@ -113,6 +132,8 @@ def file_of(params, key_tuple):
     name = 't.data'
     if key_tuple[0] == 'U' and params['u_file']:
         name = params['u_file']
+    if key_tuple[0] == 'V' and params.get('v_file'):
+        name = params['v_file']
     if params['profile']:
         name += '.profiles'
     return name
@@ -123,8 +144,9 @@ class World(object):
         shutil.rmtree(wd, ignore_errors=True)
         self.params = params
         second = {'benchmarks': params['u'], 'data_file': params['u_file']} if params['u'] else None
+        third = {'benchmarks': params['v'], 'data_file': params.get('v_file')} if params.get('v') else None
         self.scn = dd.Scenario(wd, params['t'], params['invocations'], params['iterations'], params['crits'],
-                               second_exp=second, profile=params['profile'])
+                               second_exp=second, profile=params['profile'], third_exp=third)
         r = self.scn.run(filters=['all'])
         self.problem = None
         if r.crash or r.exit not in (0, 1):
@@ -139,6 +161,41 @@ class World(object):
         self.base_starts = list(self.scn.starts)
         self.base_serial = self.scn.serial
         self.base_session = self.scn.session
+        if params.get('damaged'):
+            self.inject_damaged(params['damaged'])
+
+    def inject_damaged(self, spec):
+        """damaged data lines (remains of interrupted writes, hand edits) inside the files that are
+        going to be rewritten: lines whose parsing raises ValueError / IndexError.  spec: [n, seed]"""
+        import random
+        n, seed = spec
+        rng = random.Random(seed)
+        for f in self.files:
+            lines = self.old[f].split('\n')[:-1]
+            data = [l for l in lines if l and not l.startswith('#') and l != dd.HDR]
+            first = next((i for i, l in enumerate(lines) if not l.startswith('#')), len(lines))
+            for _ in range(n):
+                kind = rng.choice(['glued', 'int', 'short1', 'short4', 'float', 'word'])
+                if self.params['profile'] and kind in ('short4', 'float'):
+                    kind = 'short1'
+                # (a glued remainder in a profile line is rejected by the JSON check of the last column)
+                src = rng.choice(data) if data else '1\t1\t2.000000\tms\ttotal'
+                if kind == 'glued':
+                    bad = src[:rng.randint(1, max(1, len(src) - 1))] + '#!rebench -D ' + self.scn.conf
+                elif kind == 'int':
+                    bad = 'x' + src
+                elif kind == 'short1':
+                    bad = '7'
+                elif kind == 'short4':
+                    bad = '\t'.join(src.split('\t')[:4])
+                elif kind == 'float':
+                    cols = src.split('\t')
+                    cols[2] = 'n/a'
+                    bad = '\t'.join(cols)
+                else:
+                    bad = 'damaged line'
+                lines.insert(rng.randint(first, len(lines)), bad)
+            self.old[f] = '\n'.join(lines) + '\n'
 
     def reset(self):
         for f, p in zip(self.files, self.paths):
@@ -189,10 +246,11 @@ class World(object):
 
         def key_of_run(obj):
             toks = obj['cmdline'].split()
-            exe = {'exe': 'E', 'exe2': 'E2'}.get(toks[0].rsplit('/', 1)[-1], '?')
+            exe = {'exe': 'E', 'exe2': 'E2', 'exe3': 'E3'}.get(toks[0].rsplit('/', 1)[-1], '?')
             return self.key_of(exe, toks[-1])
         bp, rp = dd.payload_tables(dd.parse_file(self.old[f]), key_of_bench, key_of_run)
-        op = {'op': 'c14.rewrite', 'text': self.old[f], 'hdr': dd.HDR, 'lvariant': LV, 'rvariant': RV,
+        pj = sorted(set(d['json'] for d in dd.parse_file(self.old[f]) if d['kind'] == 'prof')) if self.params['profile'] else None
+        op = {'op': 'c14.rewrite', 'text': self.old[f], 'hdr': dd.HDR, 'lvariant': LV, 'rvariant': RV, 'profile_json': pj,
               'bench_payloads': bp, 'run_payloads': rp, 'profile': self.params['profile'], 'same_fs': same_fs,
               'cap': 8192, 'sel': sel, 'runs': list(range(len(names))), 'invocations': self.params['invocations']}
         if RV.startswith('custom:'):
@@ -248,7 +306,7 @@ def session_fn(world, argv_extra, exp, filters):
         n0 = len(scn.starts)
         r = scn.run(argv_extra, ([exp] if exp else []) + list(filters))
         return {'status': r.status(), 'crash': list(r.crash) if r.crash else None, 'stderr': r.stderr[-300:],
-                'starts': [({'exe': 'E', 'exe2': 'E2'}.get(s['exe'], s['exe']), s['bench']) for s in scn.starts[n0:]]}
+                'starts': [({'exe': 'E', 'exe2': 'E2', 'exe3': 'E3'}.get(s['exe'], s['exe']), s['bench']) for s in scn.starts[n0:]]}
     return fn
 
 
@@ -256,7 +314,11 @@ def check_selection(acc, world, exp, filters, tmpdir, placement, model_fn, crash
     """one `-r` session (plus crash runs); model comparison and oracle"""
     obs = observe_selection(acc, world, exp, filters, tmpdir, placement, crash_points)
     if obs is not None:
-        judge_selection(acc, world, obs, model_fn(obs['ops']))
+        answers = model_fn(obs['ops'])
+        judge_selection(acc, world, obs, answers)
+        m = multi_op(world, obs, dict(zip(obs['rewritten'], answers)))
+        if m is not None:
+            judge_multi(acc, world, obs, model_fn([m])[0])
 
 
 def observe_selection(acc, world, exp, filters, tmpdir, placement, crash_points):
@@ -309,6 +371,12 @@ def judge_selection(acc, world, obs, model_answers):
         for f in world.files:
             snap = res['snapshots'].get(os.path.join(world.scn.wd, f))
             want = world.expected_new(f, sel) if f in rewritten else world.old[f]
+            if params.get('damaged'):
+                n_old = sum(1 for d in dd.parse_file(world.old[f]) if d['kind'] == 'other')
+                n_new = sum(1 for d in dd.parse_file(snap or '') if d['kind'] == 'other')
+                acc.count('damaged-lines:%s' % ('dropped-by-rewrite' if f in rewritten else 'in-untouched-file'),
+                          n_old - n_new if f in rewritten else n_old)
+                snap, want = strip_other(snap), strip_other(want)
             if snap != want:
                 what = 'missing' if snap is None else 'header_only' if (
                     want.replace(dd.HDR + '\n', '', 1) == snap) else 'fewer_lines' if (
@@ -393,7 +461,12 @@ def judge_selection(acc, world, obs, model_answers):
             old = world.old[f]
             want = world.expected_new(f, sel) if f in rewritten else old
             s = surv[f]
-            if s != old and s != want:
+            if params.get('damaged'):
+                ok_states = (strip_other(old), strip_other(want))
+                is_ok = strip_other(s) in ok_states and s is not None
+            else:
+                is_ok = s == old or s == want
+            if not is_ok:
                 what = 'absent' if s is None else 'partial' if (s is not None and want.startswith(s)) else 'other'
                 acc.oracle_fail('atomic', cinp, {'file': f, 'survivor': what,
                                                  'survivor_len': None if s is None else len(s),
@@ -414,6 +487,59 @@ def judge_selection(acc, world, obs, model_answers):
                                          {'survivor_len': None if s is None else len(s)},
                                          {'state': states[idx] if isinstance(states[idx], str) else 'other',
                                           'len': None if ms is None else len(ms)}, ['RB.Rewrite.c14_rewrite_atomic'])
+
+
+def mop_of_event(ev):
+    """event -> operation name of the multi-file model (the data file keeps its index)"""
+    k = ev[0]
+    if k in ('replace', 'rename') and ev[2].startswith('data'):
+        return 'rename:%s:%s' % (ev[1], ev[2])
+    return op_of_event(ev)
+
+
+def multi_op(world, obs, answers):
+    """`c14.multi` for one -r session: the files in the order the session rewrote them"""
+    if not obs['rewritten'] or any(answers[f]['end'] != 'ok' for f in obs['rewritten']):
+        return None
+    order = [g[2] for g in groups_of(obs['res']['events']) if g[2] is not None]
+    idx = [int(c[4:]) for c in order]
+    if sorted(world.files[i] for i in idx) != sorted(obs['rewritten']):
+        return None     # reported by the per-file comparison
+    obs['model_new'] = {f: answers[f]['new'] for f in obs['rewritten']}
+    return {'op': 'c14.multi', 'olds': [world.old[f] for f in world.files], 'cap': 8192,
+            'rewrites': [[i, answers[world.files[i]]['writes']] for i in idx]}
+
+
+def judge_multi(acc, world, obs, ans):
+    """whole operation sequence over all data files, and all files after every kill"""
+    inp = obs['inp']
+    events = obs['res']['events']
+    impl_ops = [mop_of_event(e) for e in events]
+    acc.count('multi-file-rewrites:%d' % len(obs['rewritten']))
+    if impl_ops != ans['ops']:
+        acc.disagree('c14.multi: operation sequence over all data files', inp, {'ops': compress(impl_ops)},
+                     {'ops': compress(ans['ops'])}, ['RB.Rewrite.c14_rewrite_atomic_multi'])
+        return
+    for (k, cexit, surv) in obs['crashes']:
+        if cexit != 'killed' or k >= len(ans['states']):
+            continue
+        want = ans['states'][k]
+        got = []
+        for j, f in enumerate(world.files):
+            s_ = surv[f]
+            new = obs['model_new'].get(f)
+            got.append('absent' if s_ is None else 'old' if s_ == world.old[f] else 'new' if s_ == new else 'other')
+        want_tags = [w if isinstance(w, str) else 'other' for w in want]
+        if got != want_tags:
+            acc.disagree('c14.multi: all data files after a kill', dict(inp, crash_before_call=k),
+                         {'files': got}, {'files': want_tags}, ['RB.Rewrite.c14_rewrite_atomic_multi'])
+
+
+def strip_other(text):
+    """the text without damaged data lines: the property does not say what happens to them"""
+    if text is None:
+        return None
+    return ''.join(text[d['start']:d['end']] for d in dd.parse_file(text) if d['kind'] != 'other')
 
 
 def state_text(st, old, new):
@@ -526,11 +652,21 @@ def scenario_job(job):
     for k in range(0, len(all_ops), 40):
         all_ans += model(all_ops[k:k + 40])
     pos = 0
+    mops, mobs = [], []
     for o in pending:
         n = len(o['ops'])
         judge_selection(acc, world, o, all_ans[pos:pos + n])
+        m = multi_op(world, o, dict(zip(o['rewritten'], all_ans[pos:pos + n])))
+        if m is not None:
+            mops.append(m)
+            mobs.append(o)
         pos += n
-    for exp in ([None, 'all'] + (['U'] if params['u'] else [])):
+    mans = []
+    for k in range(0, len(mops), 40):
+        mans += model(mops[k:k + 40])
+    for o, a in zip(mobs, mans):
+        judge_multi(acc, world, o, a)
+    for exp in ([None, 'all'] + (['U'] if params['u'] else []) + (['V'] if params.get('v') else [])):
         check_clean(acc, world, exp, my_same, model)
     shutil.rmtree(world.scn.wd, ignore_errors=True)
     return acc
@@ -577,17 +713,17 @@ def run_case_file(ck, acc, w, idx, tmp_same, tmp_shm):
     cp = None
     if w.get('crash_before_call') is not None:
         k = w['crash_before_call']
-        cp = lambda events, k=k, w=w: [resolve_crash(events, k, w.get('call'))]
+        cp = lambda events, k=k, w=w: [resolve_crash(events, k, w.get('call'), w.get('nth', 0))]
     check_selection(acc, world, w.get('experiment'), w.get('filters', []), tmpdir,
                     w.get('tmp', 'same_fs'), ck.model, cp)
 
 
-def resolve_crash(events, k, call):
+def resolve_crash(events, k, call, nth=0):
     """a crash point is named by the kind of call it precedes (robust against a changed number of writes)"""
     if call and (k >= len(events) or op_of_event(events[k]) != call):
-        for i, e in enumerate(events):
-            if op_of_event(e) == call:
-                return i
+        hits = [i for i, e in enumerate(events) if op_of_event(e) == call]
+        if hits:
+            return hits[min(nth, len(hits) - 1)]
     return min(k, len(events))
 
 
@@ -616,7 +752,7 @@ def run(ck):
                     run_case_file(ck, acc, w, idx, tmp_same, tmp_shm)
                     acc.count('corpus:' + fn[:-5])
                     idx += 1
-        n_scn = 6 if quick else 60
+        n_scn = 8 if quick else 160
         n_sel = 9 if quick else 25
         jobs = [(i, gen_params(ck.rng, i, ck.tier), ck.seed, ck.tier, n_sel, ck.scratch, tmp_same, tmp_shm)
                 for i in range(n_scn)]
@@ -648,7 +784,7 @@ def replay(ck, data):
     try:
         w = {'params': inp['params'], 'experiment': inp.get('experiment'), 'filters': inp.get('filters', []),
              'tmp': inp.get('tmp', 'same_fs'), 'option': inp.get('option'),
-             'crash_before_call': inp.get('crash_before_call'), 'call': inp.get('call')}
+             'crash_before_call': inp.get('crash_before_call'), 'call': inp.get('call'), 'nth': inp.get('nth', 0)}
         run_case_file(ck, acc, w, 0, tmp_same, tmp_shm)
     finally:
         shutil.rmtree(tmp_shm, ignore_errors=True)
